@@ -39,7 +39,7 @@ ASSUMPTIONS = [
     'Stack Overflow default vocabulary (gs://, unreachable) is replaced by a harness vocabulary of the same size (E2)',
     'tasks: data files are synthetic SQLite files built with fedjax.SQLiteFederatedDataBuilder and served by a fake '
     'requests.get; cifar100 size/hash validation is disabled in the harness process for this check only',
-    'row independence is judged with tolerance 2e-5*(1+|p|) across batch sizes (XLA may pick different kernels)',
+    'row independence is judged with tolerance 1e-4*(1+|p|) across batch sizes (XLA may pick different kernels)',
 ]
 SHARDS = {'quick': 4, 'thorough': 8}
 SHARD_TIMEOUT = {'quick': 900, 'thorough': 2400}
@@ -317,7 +317,7 @@ def find_window(out, img, ch, cw, tol=2e-3):
     num = (wc * oc).sum(axis=(2, 3, 4))
     a = np.where(den > 0, num / np.where(den > 0, den, 1), 0.0)
     res = np.abs(oc[None, None] - a[..., None, None, None] * wc).max(axis=(2, 3, 4))
-    scale = max(1.0, float(np.abs(oc).max()))
+    scale = max(1e-9, float(np.abs(oc).max()))
     okm = (res <= tol * scale) & ((a > 0) | (den == 0))
     if okm.any():
       i, j = np.argwhere(okm)[0]
@@ -536,6 +536,12 @@ def count_target_classes(ctx, y, c):
 def lm_xcheck(ctx, fedjax, fam, kind, model, batch, c, rng, truncation, wit, alt=None, alt_key=None, entry=None):
   y = np.asarray(batch['y'])
   has = count_target_classes(ctx, y, c)
+  lo = min(int(y.min(initial=0)), int(np.min(batch['x'], initial=0)))
+  hi = max(int(y.max(initial=0)), int(np.max(batch['x'], initial=0)))
+  if not ctx.check(0 <= lo and hi < c['V'], f'{fam}/{kind}-label-outside-vocabulary',
+                   f'{kind}: dataset output contains labels in [{lo}, {hi}], vocabulary size is {c["V"]}',
+                   {**wit, 'constants': c}):
+    return has
   design = bool(rng.rand() < 0.5)
   z = make_lm_logits(rng, y, c, design)
   wit = {**wit, 'pattern': 'design' if design else 'random', 'y': y, 'constants': c}
@@ -777,8 +783,9 @@ def run_tasks(ctx, fedjax, tf):
       train, test, model = r.value
       reps = 3 if quick else 12
       for split_name, fd in (('train', train), ('test', test)):
-        for cidb, cds in fd.clients():
-          batch = cds.all_examples()
+        rl = ctx.call(f'tasks.{name}.{split_name}.clients', lambda: [(c_, d_.all_examples()) for c_, d_ in fd.clients()],
+                      witness={'task': name, 'split': split_name})
+        for cidb, batch in (rl.value if rl.ok else []):
           wit = {'task': name, 'split': split_name, 'client': repr(cidb), 'batch_shapes': {k: list(np.shape(v)) for k, v in batch.items()}}
           for rep in range(reps):
             rg = ctx.rng('tasks', name, split_name, repr(cidb), rep)
@@ -878,7 +885,7 @@ def run_rowindep(ctx, fedjax, tf):
       ctx.case_done(None, sample=wit, klass=['rowindep'])
       continue
     pb = rb.value.astype(np.float64)
-    tol = lambda a: 2e-5 * (1 + np.abs(a))
+    tol = lambda a: 1e-4 * (1 + np.abs(a))
     ctx.check(bool(np.all(np.isfinite(pb))), 'rowindep/non-finite', f'{name}: non-finite predictions', wit)
     for i in range(B):
       single = {k: v[i:i + 1] for k, v in batch.items()}
